@@ -4,6 +4,7 @@ package checks
 var Registry = map[string]func(tier string){
 	"C01": C01,
 	"C16": C16,
+	"C14": C14,
 	"C11": C11,
 	"C09": C09,
 	"C04": C04,
